@@ -401,6 +401,31 @@ def spread_and_truth(kind, t, truth):
         if hi - lo > tol * scale:
             return False, {"why": "master curve differs from the planted curve by more than a constant",
                            "kind": kind, "offsets_from_truth": [(k, float(c)) for k, c in consts][:12]}
+        # "all aligned pieces coincide": each piece, taken from the RAW record between the epochs it is stored under and
+        # moved by the offset stored for it, lies on the master curve (the tables above could agree with one another and
+        # still be attached to the wrong pieces of the record)
+        c0 = sum(c for _k, c in consts) / len(consts)
+        level = dict((int(e), v) for e, v in t["water_level"])
+        thru = dict((int(r[0]), int(r[2])) for r in (t.get("zeta_interval") or []))
+        for start, off in sorted(iv.items()):
+            if start not in level or start not in thru:
+                return False, {"why": "an aligned piece is stored under an epoch at which no interval of the record starts",
+                               "kind": kind, "start_epoch": start}
+            if kind == "rising":
+                # storage gained since the start of the rise = specific yield x rise, so offset - Sy z(start) is the constant
+                d = Fraction(off) - Fraction(truth.sy) * Fraction(level[start]) - c0
+                if abs(d) > tol * scale:
+                    return False, {"why": "a rise moved by the offset stored for it does not lie on the master curve",
+                                   "start_epoch": start, "level_at_start": level[start], "offset": off, "off_by_mm": float(d)}
+            else:
+                for e in sorted(x for x in level if start <= x <= thru[start]):
+                    T = truth.T(level[e])
+                    if T is None:
+                        continue
+                    d = Fraction(e - start) + Fraction(off) - T - c0
+                    if abs(d) > tol * scale:
+                        return False, {"why": "a recession piece moved by the offset stored for it does not lie on the master curve",
+                                       "start_epoch": start, "sample_epoch": e, "level": level[e], "offset": off, "off_by_s": float(d)}
     return True, None
 
 
